@@ -55,6 +55,9 @@ def run(ctx):
                 ops += [("commit", 0), ("open", 0)]
         ops.append(("commit", 0))
         cases.append(("flushy%d" % i, r.choice(["mem", "libc"]), T.gid_of(d), d, ops))
+    if ctx.thorough:
+        cases += T.exhaustive_small_cases(False) + T.exhaustive_small_cases(True)
+    cases = T.replay_cases(ctx) or cases
     res, mm = T.run_cases(ctx, cases, "c09")
     if res is None:
         return
